@@ -3,10 +3,13 @@ import Logrange.Go.Basic
 # Model of `Scanner.mergeDescs` (`pkg/scanner/scanner.go`)
 
 A descriptor is `{Id, File, Offset, LastSeenSize}`; the id (`utils.GetFileId`: md5 of the path + inode + device)
-is an opaque value chosen by the environment. `scanPaths` produces the `new` set with `Offset = 0`.
-For every new descriptor: unknown id ⇒ take the new one; same id and `old.LastSeenSize ≤ new.LastSeenSize` and
-`old.Offset ≤ new.LastSeenSize` ⇒ keep the old object (its offset), refresh `LastSeenSize`; otherwise replace it
-by the new one (offset 0).
+is an opaque value chosen by the environment. `scanPaths` produces the `new` set with `Offset = 0` and the size it
+stat'ed. For every new descriptor: unknown id ⇒ take the new one. Known id: read the worker's live offset once;
+if it is beyond the scanned size — the size was read *before* the offset, the file may have grown and been shipped
+in between — stat the file again (`restat`: `some size` when the second `os.Stat` succeeds and still yields the
+same id, `none` otherwise; an input from the environment) and use that size (fix f247e22). Then
+`old.LastSeenSize ≤ size ∧ offset ≤ size` ⇒ keep the old object (its offset), refresh `LastSeenSize`; otherwise
+replace it by the new one (offset 0).
 -/
 namespace Logrange.Descs
 
@@ -16,19 +19,25 @@ structure Desc where
   lastSeenSize : Nat
 deriving DecidableEq, Repr
 
+/-- the size the merge decides with. `restats = false` is the code before fix f247e22 (no second stat). -/
+def effSize (restats : Bool) (od nd : Desc) (restat : Option Nat) : Nat :=
+  if restats && decide (nd.lastSeenSize < od.offset) then restat.getD nd.lastSeenSize else nd.lastSeenSize
+
 /-- result descriptor and "the old object was kept" -/
-def mergeOne (old : Option Desc) (nd : Desc) : Desc × Bool :=
+def mergeOne (restats : Bool) (old : Option Desc) (nd : Desc) (restat : Option Nat) : Desc × Bool :=
   match old with
   | none => (nd, false)
   | some od =>
-    if od.lastSeenSize ≤ nd.lastSeenSize ∧ od.offset ≤ nd.lastSeenSize then
-      ({ od with lastSeenSize := nd.lastSeenSize }, true)
-    else (nd, false)
+    let size := effSize restats od nd restat
+    if od.lastSeenSize ≤ size ∧ od.offset ≤ size then
+      ({ od with lastSeenSize := size }, true)
+    else ({ nd with lastSeenSize := size }, false)
 
 def lookup (ds : List Desc) (id : Bytes) : Option Desc := ds.find? (fun d => d.id == id)
 
-/-- the merged set, in the order of `new` (the result's key set is `new`'s key set) -/
-def mergeDescs (old new : List Desc) : List (Desc × Bool) :=
-  new.map (fun nd => mergeOne (lookup old nd.id) nd)
+/-- the merged set, in the order of `new` (the result's key set is `new`'s key set); each new descriptor comes with
+what a second stat of its file would answer -/
+def mergeDescs (restats : Bool) (old : List Desc) (new : List (Desc × Option Nat)) : List (Desc × Bool) :=
+  new.map (fun (nd, rs) => mergeOne restats (lookup old nd.id) nd rs)
 
 end Logrange.Descs
